@@ -64,6 +64,15 @@ def build(case):
     params = macrobody(case.rng, kind, fam)
     sur = M.Surf(1, kind, params)
     leaves = [M.S(-1), M.S(1)] + facet_leaves(kind, params)
+    facets = [lf for lf in leaves if lf[3] is not None]
+    if facets:
+        # facet references under a complement: #( b.k ), #( b.j : -b.k ) and
+        # #n of a cell that is defined by a facet
+        rng = case.rng
+        fa, fb = rng.choice(facets), rng.choice(facets)
+        leaves.append(M.NOT(fa))
+        leaves.append(M.NOT(M.OR(fa, fb)))
+        leaves.append(M.CELLC(3 + leaves.index(fb) - 2))
     deck = probe_deck([sur], leaves, title=f'C03 {kind} {fam}')
     deck.tags.update({f'kind.{kind}', f'{kind}.{fam}'})
     deck.case_motion = None
